@@ -190,3 +190,10 @@ def insertSorted (x : Bytes) : List Bytes → List Bytes
 def sort (l : List Bytes) : List Bytes := l.foldr insertSorted []
 
 end ModVerif.Semver
+
+namespace ModVerif.Semver
+/-- module.CanonicalVersion: semver.Canonical, but keeps exactly the "+incompatible" build suffix. -/
+def canonicalVersion (v : Bytes) : Bytes :=
+  let cv := canonical v
+  if build v == B "+incompatible" then cv ++ B "+incompatible" else cv
+end ModVerif.Semver
